@@ -22,6 +22,11 @@ def check_case(case, common, out):
         return  # the schema is asserted by the user, not derived
     N.clear()
     expr = q.expr
+    try:
+        expr.npartitions
+    except Exception as ex:
+        out["notes"][f"npartitions raises for {case[3]}"] = f"{type(ex).__name__}: {str(ex)[:80]}"
+        return
     plans = N.stage_plans(expr)
     replay = {"kind": "call", "module": "vf.props._nodewise_driver", "func": "replay_case", "args": {"case": list(case), "which": which}}
     seen_nodes = set()
